@@ -62,7 +62,7 @@ def build(recipe):
     dup_names = recipe.get("dup_names", False)
 
     def add_buffer(arr):
-        buffers.append(np.ascontiguousarray(arr).view(np.uint8).reshape(-1))
+        buffers.append(np.ascontiguousarray(np.atleast_1d(arr)).view(np.uint8).reshape(-1))
         return len(buffers) - 1
 
     def add_tensor(name, shape, dtype, q=None, data=None, qdim=0, shape_sig=None):
@@ -192,9 +192,17 @@ def build(recipe):
                 raise ValueError("FC rank")
             n_in = int(np.prod(x["shape"][1:])) if L.get("flatten", True) else x["shape"][-1]
             wdt = "uint8" if x["dtype"] == "uint8" else "int8"
-            wdata = _weights(rs, [oc, n_in], L.get("wstyle", "uniform"), wdt)
-            wq = ([f32(L.get("wscale", 0.01))], [0 if wdt == "int8" else L.get("wzp", 128)])
-            wt = add_tensor(nm + "_w", [oc, n_in], wdt, wq, wdata)
+            if L.get("w_from") is not None:
+                # dynamic weights: the output of another layer (such an operator stays on the CPU)
+                wv = values[L["w_from"]]
+                if list(wv["shape"]) != [oc, n_in] or wv["dtype"] != wdt:
+                    raise ValueError("dynamic FC weights have the wrong shape / type")
+                wt = wv["t"]
+                wq = ([f32(wv["q"][0])], [int(wv["q"][1])])
+            else:
+                wdata = _weights(rs, [oc, n_in], L.get("wstyle", "uniform"), wdt)
+                wq = ([f32(L.get("wscale", 0.01))], [0 if wdt == "int8" else L.get("wzp", 128)])
+                wt = add_tensor(nm + "_w", [oc, n_in], wdt, wq, wdata)
             insl = [x["t"], wt]
             if L.get("bias", True):
                 bdt = "int64" if x["dtype"] == "int16" else "int32"
@@ -216,7 +224,7 @@ def build(recipe):
             add_op(BO[op], [x["t"]], [y["t"]], ("Pool2DOptions", {"Padding": 0 if pad == "SAME" else 1, "StrideW": sw, "StrideH": sh,
                                                                    "FilterWidth": kw, "FilterHeight": kh,
                                                                    "FusedActivationFunction": act}), version=2)
-        elif op in ("ADD", "SUB", "MUL", "MINIMUM", "MAXIMUM"):
+        elif op in ("ADD", "SUB", "MUL", "MINIMUM", "MAXIMUM", "SQUARED_DIFFERENCE"):
             if len(ins) == 2:
                 np.broadcast_shapes(tuple(ins[0]["shape"]), tuple(ins[1]["shape"]))
                 b = ins[1]
@@ -232,12 +240,12 @@ def build(recipe):
             oshape = list(np.broadcast_shapes(tuple(x["shape"]), tuple(bshape)))
             y = new_value(nm, oshape, L.get("odtype", x["dtype"]), oq)
             optn = {"ADD": "AddOptions", "SUB": "SubOptions", "MUL": "MulOptions", "MINIMUM": "MaximumMinimumOptions",
-                    "MAXIMUM": "MaximumMinimumOptions"}[op]
+                    "MAXIMUM": "MaximumMinimumOptions", "SQUARED_DIFFERENCE": "SquaredDifferenceOptions"}[op]
             optd = {"FusedActivationFunction": act} if op in ("ADD", "SUB", "MUL") else {}
-            add_op(BO[op], [x["t"], bt] if a_first else [bt, x["t"]], [y["t"]], (optn, optd), version=2)
-        elif op in ("RELU", "RELU6", "RELU_N1_TO_1", "LOGISTIC", "TANH", "HARD_SWISH", "ABS", "QUANTIZE", "EXP", "RSQRT"):
+            add_op(BO[op], [x["t"], bt] if a_first else [bt, x["t"]], [y["t"]], (optn, optd), version=2 if op != "SQUARED_DIFFERENCE" else 1)
+        elif op in ("RELU", "RELU6", "RELU_N1_TO_1", "LOGISTIC", "TANH", "HARD_SWISH", "ABS", "QUANTIZE", "EXP", "RSQRT", "LOG", "SQRT", "GELU"):
             y = new_value(nm, x["shape"], L.get("odtype", x["dtype"]), oq)
-            opt = ("QuantizeOptions", {}) if op == "QUANTIZE" else None
+            opt = ("QuantizeOptions", {}) if op == "QUANTIZE" else (("GeluOptions", {"Approximate": bool(L.get("approximate", False))}) if op == "GELU" else None)
             add_op(BO[op], [x["t"]], [y["t"]], opt)
         elif op == "LEAKY_RELU":
             y = new_value(nm, x["shape"], x["dtype"], oq)
@@ -550,7 +558,7 @@ def gen_recipe(r, cfg=None, profile="mixed"):
             L["in"] = [xi]
             emit(L, [1, OH, OW, C], x["q"])
         elif fam == "ew":
-            op = r.choice(["ADD", "ADD", "SUB", "MUL", "MINIMUM", "MAXIMUM"])
+            op = r.choice(["ADD", "ADD", "SUB", "MUL", "MINIMUM", "MAXIMUM", "SQUARED_DIFFERENCE"])
             others = [i for i, v in enumerate(vals) if v["shape"] == x["shape"] and v["dtype"] == dtype and i != xi]
             mode = r.random()
             if op in ("MINIMUM", "MAXIMUM"):
@@ -566,7 +574,7 @@ def gen_recipe(r, cfg=None, profile="mixed"):
             elif mode < 0.6:
                 L["in"] = [xi, xi]
             else:
-                bshape = r.choice([[1, 1, 1, C], [1, 1, 1, 1], [1, H, W, C], [1, 1, W, C], [1, H, 1, 1]])
+                bshape = r.choice([[1, 1, 1, C], [1, 1, 1, 1], [1, H, W, C], [1, 1, W, C], [1, H, 1, 1], [], [C]])
                 L["in"] = [xi]
                 L["const"] = dict(shape=bshape, q=list(x["q"] if op in ("MINIMUM", "MAXIMUM") else _rand_q(r, dtype)))
                 L["swap"] = r.random() < 0.3
@@ -597,6 +605,8 @@ def gen_recipe(r, cfg=None, profile="mixed"):
             emit(L, x["shape"], tuple(q_))
         elif fam == "lut":
             op = r.choice(["LOGISTIC", "TANH", "HARD_SWISH", "LEAKY_RELU"])
+            if dtype in ("int8", "int16") and r.random() < 0.3:
+                op = r.choice(["EXP", "LOG", "SQRT", "RSQRT", "GELU", "GELU"]) if dtype == "int8" else r.choice(["EXP", "LOG", "SQRT", "GELU"])
             if op in ("LOGISTIC", "TANH"):
                 q_ = _act_q(dtype, op)
             else:
@@ -604,11 +614,47 @@ def gen_recipe(r, cfg=None, profile="mixed"):
             L = dict(op=op, q=list(q_))
             if op == "LEAKY_RELU":
                 L["alpha"] = r.choice([0.1, 0.2])
+            if op == "GELU":
+                L["approximate"] = r.random() < 0.5
             L["in"] = [xi]
             emit(L, x["shape"], tuple(q_))
         elif fam == "shape":
-            op = r.choice(["RESHAPE", "CONCATENATION", "PAD", "SPLIT", "STRIDED_SLICE", "CONCATENATION"])
-            if op == "RESHAPE":
+            op = r.choice(["RESHAPE", "CONCATENATION", "PAD", "SPLIT", "STRIDED_SLICE", "CONCATENATION", "SLICE", "TRANSPOSE", "SQUEEZE_EXPAND", "UNPACK_PACK"])
+            if op == "SLICE":
+                begin = [0, r.randint(0, H // 2), r.randint(0, W // 2), r.randint(0, C // 2)]
+                size_ = [1, r.randint(1, H - begin[1]), r.randint(1, W - begin[2]), r.randint(1, C - begin[3])]
+                emit(dict(op="SLICE", begin=begin, size=size_, **{"in": [xi]}), size_, x["q"])
+            elif op == "TRANSPOSE":
+                if H * W * C > 40000:
+                    continue
+                perm = r.choice([[0, 2, 1, 3], [0, 2, 1, 3], [0, 1, 3, 2], [0, 3, 2, 1]])
+                emit(dict(op="TRANSPOSE", perm=perm, **{"in": [xi]}), [x["shape"][p_] for p_ in perm], x["q"])
+            elif op == "SQUEEZE_EXPAND":
+                # EXPAND_DIMS to rank 5 is not an NPU shape; stay within rank 4: squeeze a unit axis and put one back elsewhere
+                unit = [d for d in (1, 2) if x["shape"][d] == 1]
+                if not unit:
+                    continue
+                d = r.choice(unit)
+                shp3 = [s_ for i_, s_ in enumerate(x["shape"]) if i_ != d]
+                a = emit(dict(op="SQUEEZE", shape=shp3, dims=[d], **{"in": [xi]}), shp3, x["q"])
+                ax = r.choice([1, 2])
+                shp4 = list(shp3)
+                shp4.insert(ax, 1)
+                emit(dict(op="EXPAND_DIMS", shape=shp4, axis=ax, **{"in": a}), shp4, x["q"])
+            elif op == "UNPACK_PACK":
+                ax = r.choice([1, 2])
+                n = x["shape"][ax]
+                if n > 4 or n < 2:
+                    continue
+                shp3 = [s_ for i_, s_ in enumerate(x["shape"]) if i_ != ax]
+                parts = emit(dict(op="UNPACK", axis=ax, n_out=n, **{"in": [xi]}), shp3, x["q"], n_out=n)
+                order = list(parts)
+                r.shuffle(order)
+                ax2 = r.choice([1, 2])
+                shp4 = list(shp3)
+                shp4.insert(ax2, n)
+                emit(dict(op="PACK", axis=ax2, **{"in": order}), shp4, x["q"])
+            elif op == "RESHAPE":
                 facs = [(1, H * W, 1, C), (1, W, H, C), (1, 1, 1, elems), (1, H, W * C, 1), (1, H * W * C)]
                 if C % 2 == 0:
                     facs.append((1, H, W * 2, C // 2))
@@ -691,7 +737,32 @@ def gen_recipe(r, cfg=None, profile="mixed"):
             L["in"] = [xi]
             emit(L, [1, OH, OW, oc], oq)
         elif fam == "cpu":
-            kind = r.choice(["custom", "deq_floor_q", "gather", "big_stride", "unsupported_act"])
+            kind = r.choice(["custom", "deq_floor_q", "gather", "big_stride", "unsupported_act", "dyn_fc", "argmax"])
+            if kind == "dyn_fc" and dtype in ("int8", "uint8") and elems <= 4096:
+                # FULLY_CONNECTED whose weights are computed by an operator the compiler can place on the NPU
+                oc_ = r.choice([2, 4, 8])
+                n_in = elems // oc_
+                if n_in < 1 or oc_ * n_in != elems:
+                    continue
+                src = emit(dict(op=r.choice(["RELU", "RELU6"]), **{"in": [xi]}), x["shape"], x["q"])
+                wq_ = x["q"] if dtype == "uint8" else (x["q"][0], 0)
+                if dtype == "int8" and x["q"][1] != 0:
+                    src = emit(dict(op="QUANTIZE", q=list(wq_), **{"in": src}), x["shape"], wq_)
+                wv = emit(dict(op="RESHAPE", shape=[oc_, n_in], **{"in": src}), [oc_, n_in], wq_)
+                act_src = [i for i, v in enumerate(vals) if v["dtype"] == dtype and len(v["shape"]) >= 2 and int(np.prod(v["shape"])) % n_in == 0
+                           and int(np.prod(v["shape"])) // n_in <= 8 and i != wv[0]]
+                if not act_src:
+                    continue
+                ai = r.choice(act_src)
+                batch = int(np.prod(vals[ai]["shape"])) // n_in
+                a2 = emit(dict(op="RESHAPE", shape=[batch, n_in], **{"in": [ai]}), [batch, n_in], vals[ai]["q"])
+                emit(dict(op="FULLY_CONNECTED", oc=oc_, act="NONE", q=list(oq), bias=r.random() < 0.5, w_from=wv[0], flatten=False, **{"in": a2}), [batch, oc_], oq)
+                continue
+            if kind == "argmax":
+                emit(dict(op="ARG_MAX", axis=3, **{"in": [xi]}), x["shape"][:-1], None, odtype="int32")
+                continue
+            if kind in ("dyn_fc", "argmax"):
+                continue
             if kind == "custom":
                 emit(dict(op="CUSTOM", code=r.choice(["VerifThirdParty", "OtherVendorOp"]), options=[r.randrange(256) for _ in range(r.randint(0, 9))],
                           **{"in": [xi]}), x["shape"], x["q"])
